@@ -4,8 +4,9 @@
    looked up by phase ordinal); it runs the generated kernels of Gen_tensors. *)
 From Coq Require Import Reals ZArith List Permutation.
 From PV Require Import Num NumR Model_voigt Proofs_tensors_alg Proofs_tensors_rot
-  Proofs_tensors_maps Proofs_tensors_proj Inst_tensors Proofs_voigt Model_decomp Proofs_decomp Proofs_voigt2 Proofs_voigt3.
-From PV.gen Require Import Gen_tensors.
+  Proofs_tensors_maps Proofs_tensors_proj Inst_tensors Proofs_voigt Model_decomp Proofs_decomp Proofs_voigt2 Proofs_voigt3
+  Inst_voigt Inst_voigt_a0 Inst_voigt_a1 Inst_voigt_a01 Inst_voigt_a10 Proofs_voigt_gen.
+From PV.gen Require Import Gen_tensors Gen_voigt.
 Import ListNotations.
 Open Scope R_scope.
 
@@ -167,3 +168,151 @@ Example C10_nonvacuous_aggregate :
   NoDup [0%Z; 1%Z] /\
   Permutation (combine [0%Z; 1%Z] [1/4; 3/4]) (combine [1%Z; 0%Z] [3/4; 1/4]).
 Proof. exact C10_nonvacuous_agg_proof. Qed.
+
+(* ---- tie T (round 5): pydrex.minerals.voigt_averages is regenerated from the source on every run at small sizes
+   (gen/Gen_voigt.v: real Mineral / StiffnessTensors objects with symbolic contents, symbolic phase ordinals, the real
+   StiffnessTensors.__iter__, the tensor kernels kept as calls of Gen_tensors).  Each statement: the generated
+   configuration IS the list model above on the corresponding minerals (`mk_min ph n_grains n_orientation_snapshots
+   n_fraction_snapshots grains_per_array O F`), for ALL phase ordinals and all numbers; `flat_res` lays the list of
+   result matrices out as the (ns, 6, 6) block the code returns. ---- *)
+(* what flat_res means: entry (i, k) of the block is entry k of the model's i-th matrix; errors are the model's errors.
+   So every theorem above holds for the block a generated configuration returns. *)
+Theorem C10_generated_block_is_model_result : forall (r : res (list (arr NumR))) (a : arr NumR),
+  flat_res r = Ok a ->
+  exists res, r = Ok res /\
+    forall i k, (i < length res)%nat -> (k < 36)%nat -> a (36 * i + k)%nat = nth i res zeroA k.
+Proof. exact generated_block_is_model_result. Qed.
+Theorem C10_generated_error_is_model_error : forall (r : res (list (arr NumR))) (e : err),
+  flat_res r = Err e <-> r = Err e.
+Proof. exact generated_error_is_model_error. Qed.
+
+Theorem C10_generated_a0_m1_s1_g1 : forall (ph0 : Z) (phis Sol Sen O0 F0 : RA),
+  @k_voigt_a0_m1_s1_g1 NumR ph0 phis Sol Sen O0 F0 =
+  flat_res (@voigt_averages NumR [mk_min ph0 1 1 1 1 O0 F0] [0%Z] (arr_to_list 1 phis) [Sol; Sen]).
+Proof. exact voigt_inst_a0_m1_s1_g1. Qed.
+
+Theorem C10_generated_a0_m1_s2_g1 : forall (ph0 : Z) (phis Sol Sen O0 F0 : RA),
+  @k_voigt_a0_m1_s2_g1 NumR ph0 phis Sol Sen O0 F0 =
+  flat_res (@voigt_averages NumR [mk_min ph0 1 2 2 1 O0 F0] [0%Z] (arr_to_list 1 phis) [Sol; Sen]).
+Proof. exact voigt_inst_a0_m1_s2_g1. Qed.
+
+Theorem C10_generated_a0_m1_s1_g2 : forall (ph0 : Z) (phis Sol Sen O0 F0 : RA),
+  @k_voigt_a0_m1_s1_g2 NumR ph0 phis Sol Sen O0 F0 =
+  flat_res (@voigt_averages NumR [mk_min ph0 2 1 1 2 O0 F0] [0%Z] (arr_to_list 1 phis) [Sol; Sen]).
+Proof. exact voigt_inst_a0_m1_s1_g2. Qed.
+
+Theorem C10_generated_a1_m1_s1_g1 : forall (ph0 : Z) (phis Sol Sen O0 F0 : RA),
+  @k_voigt_a1_m1_s1_g1 NumR ph0 phis Sol Sen O0 F0 =
+  flat_res (@voigt_averages NumR [mk_min ph0 1 1 1 1 O0 F0] [1%Z] (arr_to_list 1 phis) [Sol; Sen]).
+Proof. exact voigt_inst_a1_m1_s1_g1. Qed.
+
+Theorem C10_generated_a1_m1_s2_g1 : forall (ph0 : Z) (phis Sol Sen O0 F0 : RA),
+  @k_voigt_a1_m1_s2_g1 NumR ph0 phis Sol Sen O0 F0 =
+  flat_res (@voigt_averages NumR [mk_min ph0 1 2 2 1 O0 F0] [1%Z] (arr_to_list 1 phis) [Sol; Sen]).
+Proof. exact voigt_inst_a1_m1_s2_g1. Qed.
+
+Theorem C10_generated_a1_m1_s1_g2 : forall (ph0 : Z) (phis Sol Sen O0 F0 : RA),
+  @k_voigt_a1_m1_s1_g2 NumR ph0 phis Sol Sen O0 F0 =
+  flat_res (@voigt_averages NumR [mk_min ph0 2 1 1 2 O0 F0] [1%Z] (arr_to_list 1 phis) [Sol; Sen]).
+Proof. exact voigt_inst_a1_m1_s1_g2. Qed.
+
+Theorem C10_generated_a01_m1_s1_g1 : forall (ph0 : Z) (phis Sol Sen O0 F0 : RA),
+  @k_voigt_a01_m1_s1_g1 NumR ph0 phis Sol Sen O0 F0 =
+  flat_res (@voigt_averages NumR [mk_min ph0 1 1 1 1 O0 F0] [0%Z; 1%Z] (arr_to_list 2 phis) [Sol; Sen]).
+Proof. exact voigt_inst_a01_m1_s1_g1. Qed.
+
+Theorem C10_generated_a01_m1_s2_g1 : forall (ph0 : Z) (phis Sol Sen O0 F0 : RA),
+  @k_voigt_a01_m1_s2_g1 NumR ph0 phis Sol Sen O0 F0 =
+  flat_res (@voigt_averages NumR [mk_min ph0 1 2 2 1 O0 F0] [0%Z; 1%Z] (arr_to_list 2 phis) [Sol; Sen]).
+Proof. exact voigt_inst_a01_m1_s2_g1. Qed.
+
+Theorem C10_generated_a01_m1_s1_g2 : forall (ph0 : Z) (phis Sol Sen O0 F0 : RA),
+  @k_voigt_a01_m1_s1_g2 NumR ph0 phis Sol Sen O0 F0 =
+  flat_res (@voigt_averages NumR [mk_min ph0 2 1 1 2 O0 F0] [0%Z; 1%Z] (arr_to_list 2 phis) [Sol; Sen]).
+Proof. exact voigt_inst_a01_m1_s1_g2. Qed.
+
+Theorem C10_generated_a10_m1_s1_g1 : forall (ph0 : Z) (phis Sol Sen O0 F0 : RA),
+  @k_voigt_a10_m1_s1_g1 NumR ph0 phis Sol Sen O0 F0 =
+  flat_res (@voigt_averages NumR [mk_min ph0 1 1 1 1 O0 F0] [1%Z; 0%Z] (arr_to_list 2 phis) [Sol; Sen]).
+Proof. exact voigt_inst_a10_m1_s1_g1. Qed.
+
+Theorem C10_generated_a10_m1_s2_g1 : forall (ph0 : Z) (phis Sol Sen O0 F0 : RA),
+  @k_voigt_a10_m1_s2_g1 NumR ph0 phis Sol Sen O0 F0 =
+  flat_res (@voigt_averages NumR [mk_min ph0 1 2 2 1 O0 F0] [1%Z; 0%Z] (arr_to_list 2 phis) [Sol; Sen]).
+Proof. exact voigt_inst_a10_m1_s2_g1. Qed.
+
+Theorem C10_generated_a10_m1_s1_g2 : forall (ph0 : Z) (phis Sol Sen O0 F0 : RA),
+  @k_voigt_a10_m1_s1_g2 NumR ph0 phis Sol Sen O0 F0 =
+  flat_res (@voigt_averages NumR [mk_min ph0 2 1 1 2 O0 F0] [1%Z; 0%Z] (arr_to_list 2 phis) [Sol; Sen]).
+Proof. exact voigt_inst_a10_m1_s1_g2. Qed.
+
+Theorem C10_generated_bad_ngrains : forall (ph0 ph1 : Z) (phis Sol Sen O0 F0 O1 F1 : RA),
+  @k_voigt_bad_ngrains NumR ph0 ph1 phis Sol Sen O0 F0 O1 F1 =
+  flat_res (@voigt_averages NumR [mk_min ph0 1 1 1 1 O0 F0; mk_min ph1 2 1 1 2 O1 F1] [0%Z; 1%Z] (arr_to_list 2 phis) [Sol; Sen]).
+Proof. exact voigt_inst_bad_ngrains. Qed.
+
+Theorem C10_generated_bad_osteps : forall (ph0 ph1 : Z) (phis Sol Sen O0 F0 O1 F1 : RA),
+  @k_voigt_bad_osteps NumR ph0 ph1 phis Sol Sen O0 F0 O1 F1 =
+  flat_res (@voigt_averages NumR [mk_min ph0 1 1 1 1 O0 F0; mk_min ph1 1 2 1 1 O1 F1] [0%Z; 1%Z] (arr_to_list 2 phis) [Sol; Sen]).
+Proof. exact voigt_inst_bad_osteps. Qed.
+
+Theorem C10_generated_bad_fsteps : forall (ph0 ph1 : Z) (phis Sol Sen O0 F0 O1 F1 : RA),
+  @k_voigt_bad_fsteps NumR ph0 ph1 phis Sol Sen O0 F0 O1 F1 =
+  flat_res (@voigt_averages NumR [mk_min ph0 1 1 1 1 O0 F0; mk_min ph1 1 1 2 1 O1 F1] [0%Z; 1%Z] (arr_to_list 2 phis) [Sol; Sen]).
+Proof. exact voigt_inst_bad_fsteps. Qed.
+
+Theorem C10_generated_bad_fsteps_first : forall (ph0 : Z) (phis Sol Sen O0 F0 : RA),
+  @k_voigt_bad_fsteps_first NumR ph0 phis Sol Sen O0 F0 =
+  flat_res (@voigt_averages NumR [mk_min ph0 1 1 2 1 O0 F0] [0%Z] (arr_to_list 1 phis) [Sol; Sen]).
+Proof. exact voigt_inst_bad_fsteps_first. Qed.
+
+Theorem C10_generated_no_minerals : forall (phis Sol Sen : RA),
+  @k_voigt_no_minerals NumR phis Sol Sen =
+  flat_res (@voigt_averages NumR [] [0%Z] (arr_to_list 1 phis) [Sol; Sen]).
+Proof. exact voigt_inst_no_minerals. Qed.
+
+Theorem C10_generated_ngrains_attr_larger : forall (ph0 : Z) (phis Sol Sen O0 F0 : RA),
+  @k_voigt_ngrains_attr_larger NumR ph0 phis Sol Sen O0 F0 =
+  flat_res (@voigt_averages NumR [mk_min ph0 2 1 1 1 O0 F0] [0%Z] (arr_to_list 1 phis) [Sol; Sen]).
+Proof. exact voigt_inst_ngrains_attr_larger. Qed.
+
+Theorem C10_generated_a0_m2_s1_g1 : forall (ph0 ph1 : Z) (phis Sol Sen O0 F0 O1 F1 : RA),
+  @k_voigt_a0_m2_s1_g1 NumR ph0 ph1 phis Sol Sen O0 F0 O1 F1 =
+  flat_res (@voigt_averages NumR [mk_min ph0 1 1 1 1 O0 F0; mk_min ph1 1 1 1 1 O1 F1] [0%Z] (arr_to_list 1 phis) [Sol; Sen]).
+Proof. exact voigt_inst_a0_m2_s1_g1. Qed.
+
+Theorem C10_generated_a0_m2_s2_g2 : forall (ph0 ph1 : Z) (phis Sol Sen O0 F0 O1 F1 : RA),
+  @k_voigt_a0_m2_s2_g2 NumR ph0 ph1 phis Sol Sen O0 F0 O1 F1 =
+  flat_res (@voigt_averages NumR [mk_min ph0 2 2 2 2 O0 F0; mk_min ph1 2 2 2 2 O1 F1] [0%Z] (arr_to_list 1 phis) [Sol; Sen]).
+Proof. exact voigt_inst_a0_m2_s2_g2. Qed.
+
+Theorem C10_generated_a1_m2_s1_g1 : forall (ph0 ph1 : Z) (phis Sol Sen O0 F0 O1 F1 : RA),
+  @k_voigt_a1_m2_s1_g1 NumR ph0 ph1 phis Sol Sen O0 F0 O1 F1 =
+  flat_res (@voigt_averages NumR [mk_min ph0 1 1 1 1 O0 F0; mk_min ph1 1 1 1 1 O1 F1] [1%Z] (arr_to_list 1 phis) [Sol; Sen]).
+Proof. exact voigt_inst_a1_m2_s1_g1. Qed.
+
+Theorem C10_generated_a1_m2_s2_g2 : forall (ph0 ph1 : Z) (phis Sol Sen O0 F0 O1 F1 : RA),
+  @k_voigt_a1_m2_s2_g2 NumR ph0 ph1 phis Sol Sen O0 F0 O1 F1 =
+  flat_res (@voigt_averages NumR [mk_min ph0 2 2 2 2 O0 F0; mk_min ph1 2 2 2 2 O1 F1] [1%Z] (arr_to_list 1 phis) [Sol; Sen]).
+Proof. exact voigt_inst_a1_m2_s2_g2. Qed.
+
+Theorem C10_generated_a01_m2_s1_g1 : forall (ph0 ph1 : Z) (phis Sol Sen O0 F0 O1 F1 : RA),
+  @k_voigt_a01_m2_s1_g1 NumR ph0 ph1 phis Sol Sen O0 F0 O1 F1 =
+  flat_res (@voigt_averages NumR [mk_min ph0 1 1 1 1 O0 F0; mk_min ph1 1 1 1 1 O1 F1] [0%Z; 1%Z] (arr_to_list 2 phis) [Sol; Sen]).
+Proof. exact voigt_inst_a01_m2_s1_g1. Qed.
+
+Theorem C10_generated_a01_m2_s1_g1_f1 : forall (ph0 ph1 : Z) (phis Sol Sen O0 F0 O1 F1 : RA),
+  @k_voigt_a01_m2_s1_g1_f1 NumR ph0 ph1 phis Sol Sen O0 F0 O1 F1 =
+  flat_res (@voigt_averages NumR [mk_min ph0 1 1 1 1 O0 F0; mk_min ph1 1 1 1 1 O1 F1] [0%Z; 1%Z] (arr_to_list 1 phis) [Sol; Sen]).
+Proof. exact voigt_inst_a01_m2_s1_g1_f1. Qed.
+
+Theorem C10_generated_a10_m2_s1_g1 : forall (ph0 ph1 : Z) (phis Sol Sen O0 F0 O1 F1 : RA),
+  @k_voigt_a10_m2_s1_g1 NumR ph0 ph1 phis Sol Sen O0 F0 O1 F1 =
+  flat_res (@voigt_averages NumR [mk_min ph0 1 1 1 1 O0 F0; mk_min ph1 1 1 1 1 O1 F1] [1%Z; 0%Z] (arr_to_list 2 phis) [Sol; Sen]).
+Proof. exact voigt_inst_a10_m2_s1_g1. Qed.
+
+Theorem C10_generated_block_symmetric : forall (G : res (arr NumR)) tensors assemblage phis (ms : list (@mineral NumR)) a,
+  G = flat_res (voigt_averages ms assemblage phis tensors) -> G = Ok a ->
+  forall i j k, (i < n_steps ms)%nat -> (j < 6)%nat -> (k < 6)%nat ->
+    a (36 * i + (6 * j + k))%nat = a (36 * i + (6 * k + j))%nat.
+Proof. exact generated_block_symmetric. Qed.
